@@ -109,6 +109,44 @@ example : Vote.fit witnessGraph [-1,0,1,1,-1] { sigma := some [1,0] } 10 = some 
   cases hs
   exact ⟨by decide, by decide +kernel⟩
 
+/-- the directed 3-cycle 0 → 1 → 2 → 0 (F18) -/
+def dicycle3 : Csr Rat :=
+  { nRow := 3, nCol := 3, indptr := #[0,1,2,3], indices := #[1,2,0], data := #[1,1,1] }
+
+/-- ○ **vote_oscillates** (F18).  On the directed 3-cycle, with every node updated, the sweep never reaches a
+    fixed point: `[1,2,1] ↦ [2,1,2] ↦ [1,2,1]`.  The pinned loop (stop only when a sweep changes nothing) did not
+    terminate with the default `n_iter = -1`; the repaired loop also stops when a configuration comes back: from
+    the own-label start `[0,1,2]` it returns after 3 sweeps.  (Replayed on the implementation: corpus/C13.jsonl.) -/
+theorem vote_oscillates :
+    Vote.voteUpdate dicycle3 [1,2,1] [0,1,2] = [2,1,2] ∧ Vote.voteUpdate dicycle3 [2,1,2] [0,1,2] = [1,2,1] ∧
+    Vote.fit dicycle3 [1,1,1] {} 100 = some ([1,2,1], 3) := by
+  refine ⟨by decide +kernel, by decide +kernel, by decide +kernel⟩
+
+/-- the loop of `fit` makes at most `n_iter` sweeps, and at most `fuel` -/
+theorem propLoop_sweeps (step key : List Int → List Int) :
+    ∀ (fuel : Nat) (nIter : Option Nat) (t : Nat) (seen : List (List Int)) (labels l : List Int) (t' : Nat),
+      Vote.propLoop step key fuel nIter t seen labels = some (l, t') →
+      t ≤ t' ∧ t' < t + fuel ∧ ∀ m, nIter = some m → t' ≤ t + m := by
+  intro fuel
+  induction fuel with
+  | zero => intro nIter t seen labels l t' h; simp [Vote.propLoop] at h
+  | succ fuel ih =>
+    intro nIter t seen labels l t' h
+    unfold Vote.propLoop at h
+    split at h
+    · simp only [Option.some.injEq, Prod.mk.injEq] at h
+      refine ⟨by omega, by omega, fun m _ => by omega⟩
+    · rename_i hc
+      obtain ⟨h1, h2, h3⟩ := ih _ _ _ _ _ _ h
+      refine ⟨by omega, by omega, ?_⟩
+      intro m hm
+      subst hm
+      cases m with
+      | zero => simp at hc
+      | succ m =>
+        have := h3 m (by simp)
+        omega
+
 /-! ## DiffusionClassifier -/
 
 /-- a path 0–1–2–3 with unequal weights and an isolated node 4 -/
@@ -399,6 +437,25 @@ theorem f1_scores_eq_confusion (t p : List Int) (s : ClassMetrics.Scores) (h : C
     s.f1.getD l 0 = Spec.f1Def (Spec.conf t p) (ClassMetrics.nLabels t p) l :=
   ClassMetrics.scores_eq t p s h l hl
 
+/-- ★ **metrics_eq_confusion** (macro average): the mean of the per-label F1 over the labels
+    `0 … max(labels)` of the confusion matrix. -/
+theorem macro_f1_eq_confusion (t p : List Int) (x : Rat) (h : ClassMetrics.averageF1 t p .macro = .ok x) :
+    x = Spec.macroDef (Spec.conf t p) (ClassMetrics.nLabels t p) :=
+  ClassMetrics.macro_eq t p x h
+
+/-- **weighted average, what holds**: when every sample with a non-negative true label also has a
+    non-negative prediction, the weighted average equals its confusion-matrix definition (weights = row sums).
+    The hypothesis is exactly the negation of the predicate recorded in known finding F-C13-weighted-f1. -/
+theorem weighted_f1_partial (t p : List Int) (x : Rat) (hlen : t.length = p.length)
+    (hall : ∀ y ∈ t.zip p, 0 ≤ y.1 → 0 ≤ y.2) (h : ClassMetrics.averageF1 t p .weighted = .ok x) :
+    x = Spec.weightedDef (Spec.conf t p) (ClassMetrics.nLabels t p) :=
+  ClassMetrics.weighted_eq_of_all_predicted t p x hlen hall h
+
+example : ClassMetrics.averageF1 [0,0,1,1,2] [0,1,1,1,-1] .weighted = .ok (44/75) ∧
+    ClassMetrics.averageF1 [0,0,1,1] [0,1,1,1] .weighted = .ok (11/15) ∧
+    (∀ y ∈ [0,0,1,1].zip [0,1,1,1], (0 : Int) ≤ y.1 → (0 : Int) ≤ y.2) := by
+  refine ⟨by decide +kernel, by decide +kernel, by decide⟩
+
 /-- The weighted average F1 as the code computes it is **not** the confusion-matrix value when a sample has a
     true label but a negative prediction: the code weights label `l` by the number of samples of true label `l`
     among all samples with a non-negative true label (here 3 and 2), the confusion matrix has row sums 3 and 1.
@@ -409,9 +466,7 @@ theorem weighted_f1_ne_confusion :
   exact ⟨by decide +kernel, by decide +kernel⟩
 
 /-- Full statement for the weighted average: equal to the confusion-matrix definition.  False as the code
-    stands (`weighted_f1_ne_confusion`); it holds when no sample has a non-negative true label and a negative
-    prediction (then the counts of the true labels are the row sums) — checked on every such generated input by
-    the `spec` lines, not proved. -/
+    stands (`weighted_f1_ne_confusion`, `weighted_f1_full_false`); what holds is `weighted_f1_partial`. -/
 def weighted_f1_full : Prop :=
   ∀ (t p : List Int) (x : Rat), ClassMetrics.averageF1 t p .weighted = .ok x →
     x = Spec.weightedDef (Spec.conf t p) (ClassMetrics.nLabels t p)
